@@ -7,6 +7,7 @@ LEVEL = "model_checking"
 
 def run(c):
     guts_common.model_check(c, 8 if not c.thorough else 16, 1, False, ["Refill4IsFourRefills", "CounterAdvances"])
+    guts_common.apalache_counter_law(c)
     guts_common.run_guts(c, "c14")
     c.cov["rule"] = ("MCGuts: for EVERY counter/stream-id value of a scaled word size, refill_wide's lane arithmetic (d0123 + add_pos) equals four single refills in output "
                      "identity and final state, the carry reaching the high counter word and never the stream id. Real code: refill / refill4 / mixed sequences from counters at "
